@@ -7,7 +7,7 @@ moments (Gumbel, GumbelMin, Weibull) — equivariance under `x ↦ a·x + b`, mo
 All proofs go through the restated formulas of `EstOps.lean`.
 -/
 namespace Qats.Est
-open Qats Qats.Dist Qats.SN Qats.Gen
+open Qats Qats.Dist Qats.Gen
 
 theorem pwm_c_affine (a b M0 M1 M2 M3 : ℝ) (ha : a ≠ 0) :
     wb_pwm_c (a * M0 + b) (a * M1 + b / 2) (a * M2 + b / 3) (a * M3 + b / 4) = wb_pwm_c M0 M1 M2 M3 := by
